@@ -29,6 +29,15 @@ impl<'a> Tokens<'a>
 	#[inline(always)]
 	pub fn starting_from(&'a self, from: lexer::tokens::TokenId) -> Tokens<'a>
 	{
+		#[cfg(feature = "penne_verif")]
+		if crate::verif_trace::is_on()
+		{
+			crate::verif_trace::emit(format!(
+				"{{\"ev\":\"tfrom\",\"from\":{},\"len\":{}}}",
+				usize::from(from),
+				self.tokens.base_tokens().len(),
+			));
+		}
 		Tokens {
 			tokens: self.tokens,
 			next_token_id: from,
@@ -46,6 +55,16 @@ impl<'a, 'b: 'a> Tokens<'b>
 	) -> TokensWithReservation<'a, 'b>
 	{
 		let end = self.find_next(reserved);
+		#[cfg(feature = "penne_verif")]
+		if crate::verif_trace::is_on()
+		{
+			crate::verif_trace::emit(format!(
+				"{{\"ev\":\"resv\",\"cursor\":{},\"end\":{},\"len\":{}}}",
+				usize::from(self.next_token_id),
+				usize::from(end),
+				self.tokens.base_tokens().len(),
+			));
+		}
 		let temporary = Tokens {
 			tokens: self.tokens,
 			next_token_id: self.next_token_id,
@@ -86,6 +105,15 @@ impl<'a> Tokens<'a>
 		until: impl Fn(BaseToken) -> bool,
 	) -> lexer::tokens::TokenId
 	{
+		#[cfg(feature = "penne_verif")]
+		if crate::verif_trace::is_on()
+		{
+			crate::verif_trace::emit(format!(
+				"{{\"ev\":\"tfind\",\"from\":{},\"len\":{}}}",
+				usize::from(self.next_token_id),
+				self.tokens.base_tokens().len(),
+			));
+		}
 		self.tokens.skip_until(until, self.next_token_id)
 	}
 
@@ -160,6 +188,15 @@ impl<'a, 'b: 'a> Drop for TokensWithReservation<'a, 'b>
 	{
 		let from = self.temporary.next_token_id;
 		self.source.next_token_id = from;
+		#[cfg(feature = "penne_verif")]
+		if crate::verif_trace::is_on()
+		{
+			crate::verif_trace::emit(format!(
+				"{{\"ev\":\"resvdrop\",\"cursor\":{},\"len\":{}}}",
+				usize::from(from),
+				self.source.tokens.base_tokens().len(),
+			));
+		}
 		self.source.span = self.source.tokens.base_tokens_from(from);
 	}
 }
